@@ -44,6 +44,43 @@ def run(ctx):
         ctx.count(f"e2e.L={r['L']}"); ctx.count(f"e2e.status.{a.get('status')}")
         if a.get("status") == "panic":
             ctx.violation("sample panicked", S.small_req(s), observed=a)
+    # ---- (i') the inverse-CDF step of the derivation: the Gamma variate of a sample satisfies P(dod, lambda) = coordinate 2E-2
+    # (what makes lambda Gamma(dod)-distributed); general samplers plus samplers whose dod is close to, but not, 1
+    from mpmath import mp, mpf, gammainc
+    mp.dps = 30
+    from .. import oracle as O
+    near_one = []
+    for delta in (5e-4, -5e-4, 1e-4, 2e-6, -3e-5):
+        for edges, massive, ext, D, L in (([(0, 1), (1, 2), (2, 0)], [False] * 3, [0, 1, 2], 4, 1), ([(0, 1), (0, 1)], [True, True], [0, 1], 3, 1)):
+            tot = L * D / 2.0 + 1.0 + delta
+            w = [tot / len(edges)] * len(edges)
+            dod, Lf, table = O.table_oracle(edges, w, massive, ext, D)
+            if not O.divergent_subsets(table):
+                near_one.append(dict(edges=edges, weights=w, massive=massive, ext=ext, D=D, table=table, dod=dod, loops=Lf, accepted=True, name="dod_near_one"))
+    ls = list(ss[:: 3])
+    for c, b in zip(near_one, S.build_tables(near_one)):
+        if b.get("status") != "ok":
+            continue
+        routing = S.make_routing(rng, c, "fundamental")
+        for _ in range(3):
+            xs = S.point(rng, b["numVars"], "uniform")
+            ls.append(dict(case=c, routing=routing, table=b["table"], built=b, xs=xs, kind="uniform", group=None,
+                           req=S.sample_request(c, routing, b["table"], xs)))
+    S.run([t for t in ls if "impl" not in t])
+    for t in ls:
+        a, c = t["impl"], t["case"]
+        if a.get("status") != "ok" or not a.get("meta"):
+            continue
+        n_e = len(c["edges"])
+        dodv, lam, pcoord = b2f(t["built"]["dod"]), b2f(a["meta"]["lambda"]), t["xs"][2 * n_e - 2]
+        if not (0.05 <= dodv <= 100) or not (lam > 0) or lam != lam:
+            continue
+        ctx.evaluations += 1; ctx.count("lambda_is_quantile"); ctx.count("lambda.dod_near_one" if abs(dodv - 1) < 1e-3 and dodv != 1 else "lambda.other")
+        P = gammainc(mpf(dodv), 0, mpf(lam), regularized=True)
+        if abs(P - mpf(pcoord)) > mpf(2e-8) and lam >= 1e-13:
+            ctx.violation(f"the Gamma variate of the sample is not the quantile of its coordinate: P(dod={dodv!r}, lambda={lam!r}) = {float(P)!r}, "
+                          f"coordinate 2E-2 = {pcoord!r} (|difference| {float(abs(P - mpf(pcoord))):.2e} > 2e-8): lambda is not Gamma(dod) distributed",
+                          S.small_req(t), expected=pcoord, observed=float(P))
     # ---- (ii) Monte Carlo means vs closed forms
     n = 150000 if ctx.quick else 2000000
     Z3 = [0.0, 0.0, 0.0]
